@@ -9,6 +9,7 @@ CONSTANTS
   MaxBurst = 1
   BurstReps = 10
   Opts = {"ec"}
+  Anns = {}
   Depth = 12
 INVARIANT Inv
 VIEW view
